@@ -317,16 +317,57 @@ def _sample(draw, kind, reg, wv):
 KIND_WEIGHTS = ["int"] * 6 + ["rat"] * 3 + ["alg"] * 2 + ["tr"] * 2 + ["cx"] * 3
 
 
+def _negate(v):
+    k = v[0]
+    if k == "int":
+        return ["int", -v[1]]
+    if k == "rat":
+        return ["rat", str(-F(v[1]))]
+    if k in ("alg", "tr"):
+        return [k, str(-F(v[1])), str(-F(v[2])), v[3]]
+    return ["cx", str(-F(v[1])), str(-F(v[2]))]
+
+
+PROFILES = [None] * 5 + ["int", "int", "int", "pos", "pos", "pos", "neg", "neg", "real", "real", "rat", "nonneg", "nonpos", "intpos"]
+
+
 @st.composite
-def symbol_assumptions(draw, nvals=4, p_none=6):
-    """{"st": [statements true of the witness], "vals": [witness, further values of the region]}"""
+def symbol_assumptions(draw, nvals=4, p_none=6, profile=None):
+    """{"st": [statements true of the witness], "vals": [witness, further values of the region]}.
+    profile biases the witness and forces one statement (all symbols integer / positive / real ...), so that
+    expressions over several symbols meet the combination rules of the visitors"""
     kind = draw(st.sampled_from(KIND_WEIGHTS))
+    if profile in ("int", "intpos"):
+        kind = "int"
+    elif profile == "rat":
+        kind = draw(st.sampled_from(["int", "rat", "rat"]))
+    elif profile is not None and kind == "cx":
+        kind = draw(st.sampled_from(["int", "rat", "alg", "tr"]))
     w = _witness(draw, kind)
-    lvl = LEVEL[kind]
     stmts = []
+    if profile in ("pos", "neg", "nonneg", "nonpos", "intpos"):
+        sg = _cmp_real(w, Fraction(0))
+        want = 1 if profile in ("pos", "nonneg", "intpos") else -1
+        if sg == -want:
+            w = _negate(w)
+        elif sg == 0 and profile in ("pos", "neg", "intpos"):
+            w = ["int", want]
+        side = "lb" if want > 0 else "ub"
+        opts = [(Fraction(0), profile in ("pos", "neg", "intpos"))] * 3
+        if profile in ("pos", "neg", "intpos"):
+            opts += [(Fraction(want) * c, False) for c in (Fraction(1, 2), Fraction(1), Fraction(2)) if want * _cmp_real(w, Fraction(want) * c) >= 0]
+        c, strict = draw(st.sampled_from(opts))
+        stmts.append([side, _number_recipe(draw, c), strict, draw(st.integers(0, 1))])
+    lvl = LEVEL[kind]
+    if profile in ("int", "intpos"):
+        stmts.append(["in", "integers"])
+    elif profile == "rat":
+        stmts.append(["in", "rationals"])
+    elif profile == "real":
+        stmts.append(["in", draw(st.sampled_from(["reals", "reals", SETS[lvl]]))])
     if draw(st.integers(0, p_none)) != 0:
         # Contains(x, S) for a set S that holds the witness
-        if draw(st.integers(0, 3)) != 0:
+        if draw(st.integers(0, 3)) != 0 and profile not in ("int", "intpos", "rat", "real"):
             stmts.append(["in", draw(st.sampled_from([SETS[lvl]] * 3 + SETS[lvl:]))])
         wq = val_gq(w)
         if lvl <= 2:
@@ -376,8 +417,14 @@ def free_sets(names=("x", "y", "z"), nvals=2):
                                   for n in names})
 
 
-def assumption_sets(names=("x", "y", "z"), nvals=4):
-    return st.fixed_dictionaries({n: symbol_assumptions(nvals) for n in names})
+@st.composite
+def assumption_sets(draw, names=("x", "y", "z"), nvals=4):
+    profile = draw(st.sampled_from(PROFILES))
+    out = {}
+    for n in names:
+        p = profile if (profile is not None and draw(st.integers(0, 3)) != 0) else None
+        out[n] = draw(symbol_assumptions(nvals, 6, p))
+    return out
 
 
 def check_case_syms(syms):
